@@ -207,6 +207,10 @@ def run(chk):
         chk.ob("R-FWD", cc, "one call reaching the response routine", False, derived="%d" % len(calls), loc=r.fi.loc())
     from .c03 import xi_sentinel
     xi_sentinel(chk, P.fn(ACC + ".response_series"), cc, "R-FWD", cls_q=ACC)
+    from ..tyob import leading_zero_tests
+    _fi = chk.P.fn("eqsig.sdof.nigam_and_jennings_response")
+    leading_zero_tests(chk, "R-T0", _fi, _fi.params[2] if len(_fi.params) > 2 else "periods", "eqsig/sdof.py:nigam_and_jennings_response",
+                       what="a leading zero period", minimum=0)
     chk.floor("R-NJ-COEF", 8)
     chk.floor("R-NJ-REC", 5)
     chk.floor("R-T0", 5)
